@@ -334,7 +334,8 @@ theorem assemble_ok_iff (g : Gen) (m : Mode) (shape : List Nat) (spec : AcsSpec)
     (∀ p ∈ interior, (acsFrame g.family (rowsOf shape) (colsOf shape) spec p).isSome) ∧
     t.shape = maskShape m shape ∧
     t.data = (interior.map fun p => frameData g.family (rowsOf shape)
-      (framePattern racs p ((acsFrame g.family (rowsOf shape) (colsOf shape) spec p).getD []))).flatten := by
+      (framePattern racs p ((acsFrame g.family (rowsOf shape) (colsOf shape) spec p).getD []))).flatten ∧
+    neededRank m ≤ shape.length ∧ t.data.length = prod (maskShapeNoCoil m shape) := by
   unfold assemble at h
   unfold callGuard at h
   by_cases hc : callRejects m.framed shape.length = true
@@ -361,20 +362,25 @@ where
       (∀ p ∈ interior, (acsFrame g.family (rowsOf shape) (colsOf shape) spec p).isSome) ∧
       t.shape = maskShape m shape ∧
       t.data = (interior.map fun p => frameData g.family (rowsOf shape)
-        (framePattern racs p ((acsFrame g.family (rowsOf shape) (colsOf shape) spec p).getD []))).flatten := by
+        (framePattern racs p ((acsFrame g.family (rowsOf shape) (colsOf shape) spec p).getD []))).flatten ∧
+      neededRank m ≤ shape.length ∧ t.data.length = prod (maskShapeNoCoil m shape) := by
     unfold assembleFrames at h
     by_cases ha : (interior.all fun p => (acsFrame g.family (rowsOf shape) (colsOf shape) spec p).isSome) = true
     · simp only [ha, if_true] at h
       unfold reshapeAndAddCoil at h
       split at h
       · cases h
-      · split at h
+      · rename_i hrank
+        split at h
         · cases h
-        · simp only [Except.ok.injEq] at h
+        · rename_i hlen
+          simp only [Except.ok.injEq] at h
           subst h
-          refine ⟨hc, ?_, rfl, ?_⟩
+          refine ⟨hc, ?_, rfl, ?_, by omega, ?_⟩
           · intro p hp; exact List.all_eq_true.mp ha p hp
           · simp only [bool_roundtrip]
+          · simp only [List.length_map] at hlen ⊢
+            omega
     · simp [ha] at h
 
 theorem assemble_acs_subset (g : Gen) (m : Mode) (shape : List Nat) (spec : AcsSpec) (interior : List (List Bool))
@@ -382,8 +388,8 @@ theorem assemble_acs_subset (g : Gen) (m : Mode) (shape : List Nat) (spec : AcsS
     (ta tm : Tensor Bool) (ha : assemble g m shape spec true interior = .ok ta)
     (hm : assemble g m shape spec false interior = .ok tm) :
     ta.shape = tm.shape ∧ ∀ i : Nat, ta.data[i]? = some true → tm.data[i]? = some true := by
-  obtain ⟨_, hsome, hsa, hda⟩ := assemble_ok_iff g m shape spec true interior ta ha
-  obtain ⟨_, _, hsm, hdm⟩ := assemble_ok_iff g m shape spec false interior tm hm
+  obtain ⟨_, hsome, hsa, hda, _, _⟩ := assemble_ok_iff g m shape spec true interior ta ha
+  obtain ⟨_, _, hsm, hdm, _, _⟩ := assemble_ok_iff g m shape spec false interior tm hm
   refine ⟨by rw [hsa, hsm], ?_⟩
   rw [hda, hdm]
   apply flatten_map_subset
